@@ -534,6 +534,7 @@ fn base_case(edges: Vec<(usize, usize, f64)>, n_v: usize, source: usize, target:
         query_wf: None,
         svc: None,
         term_via_builder: false,
+        svc_unknown_weight: false,
     }
 }
 
